@@ -339,7 +339,7 @@ func (vs *ValidatorStore) fetchPostponedUnstakes() error {
 		if err != nil {
 			return false
 		}
-		err = vs.HandleUnstake(*unstake, vs.lastHeight)
+		err = vs.handleUnstake(*unstake, vs.lastHeight, true)
 		if err != nil {
 			logger.Errorf("Handle unstake for validator: %s failed, %s\n", validator.Address, err)
 			return false
